@@ -21,14 +21,23 @@ Min2(a, b) == IF a <= b THEN a ELSE b
 
 Sgn(n) == IF n < 0 THEN -1 ELSE IF n = 0 THEN 0 ELSE 1
 
+MinOf(S) == CHOOSE j \in S : \A m \in S : j <= m
+
+\* first index at which two sequences differ within 1..n (0 if none).  Two stages: most byte strings
+\* differ within the first few bytes, so the long scan is rarely evaluated (TLC evaluates set
+\* comprehensions natively; deep recursion would be far slower).
+FirstDiff(a, b, n) ==
+    LET m  == Min2(n, 12)
+        d1 == {i \in 1..m : a[i] # b[i]}
+    IN  IF d1 # {} THEN MinOf(d1)
+        ELSE LET d2 == {i \in (m + 1)..n : a[i] # b[i]}
+             IN  IF d2 = {} THEN 0 ELSE MinOf(d2)
+
 \* Lexicographic comparison of two integer sequences (memcmp, then length).
 SeqCmp(a, b) ==
     LET n == Min2(Len(a), Len(b))
-        d == {i \in 1..n : a[i] # b[i]}
-    IN  IF d = {}
-          THEN Sgn(Len(a) - Len(b))
-          ELSE LET i == CHOOSE j \in d : \A m \in d : j <= m
-               IN  Sgn(a[i] - b[i])
+        i == FirstDiff(a, b, n)
+    IN  IF i = 0 THEN Sgn(Len(a) - Len(b)) ELSE Sgn(a[i] - b[i])
 
 \* Magnitude comparison of two positive dyadics.
 MagCmp(x, y) ==
@@ -53,15 +62,20 @@ RTrimLen(b) ==
 
 RTrim(b) == SubSeq(b, 1, RTrimLen(b))
 
+\* first position at which the scan of sqlite3StrNICmp stops, 0 if it runs to the end
+NoCaseStop(a, b, n) ==
+    LET m  == Min2(n, 12)
+        d1 == {i \in 1..m : a[i] = 0 \/ Fold(a[i]) # Fold(b[i])}
+    IN  IF d1 # {} THEN MinOf(d1)
+        ELSE LET d2 == {i \in (m + 1)..n : a[i] = 0 \/ Fold(a[i]) # Fold(b[i])}
+             IN  IF d2 = {} THEN 0 ELSE MinOf(d2)
+
 NoCaseCmp(a, b) ==
     LET n == Min2(Len(a), Len(b))
-        \* first position at which the scan of sqlite3StrNICmp stops
-        stop == {i \in 1..n : a[i] = 0 \/ Fold(a[i]) # Fold(b[i])}
-    IN  IF stop = {}
-          THEN Sgn(Len(a) - Len(b))
-          ELSE LET i == CHOOSE j \in stop : \A m \in stop : j <= m
-                   r == Fold(a[i]) - Fold(b[i])
-               IN  IF r # 0 THEN Sgn(r) ELSE Sgn(Len(a) - Len(b))
+        i == NoCaseStop(a, b, n)
+    IN  IF i = 0 THEN Sgn(Len(a) - Len(b))
+        ELSE LET r == Fold(a[i]) - Fold(b[i])
+             IN  IF r # 0 THEN Sgn(r) ELSE Sgn(Len(a) - Len(b))
 
 Collations == {"binary", "nocase", "rtrim"}
 
